@@ -27,6 +27,12 @@ Round 5: dict comprehensions / tuple targets over symbolic sequences; `datetime.
 reading: instant + unconstrained offset) and `astimezone` (same instant) on the (instant, aware) abstraction, so timestamp
 normalisation helpers in front of the bound comparisons are decided instead of havoc'd; path pruning resets the solver core
 per query (`C18Executor.feasible`).  The replayer's fake library serves hidden (trimmed) children: short / empty non-final pages.
+
+Round 6: Part E (exceptions.py): `SharePointRequestError.__init__` stores the status and URL it is given (the engine's exception
+values assume exactly that at every raise site).  Executed as the code they stand for: `with suppress(..)`, `with` over a
+single-yield @contextmanager generator (`s_With`), `for` / list comprehension over an uncontracted generator helper (`loop_over_helper`,
+push form), invariant-less search loops over a symbolic sequence (`search_loop`, exact), `f(**dict_of_known_keys)`, zero-argument
+`super().__init__` in exception classes.  Each falls back to out-of-subset / the tagged havoc cut on any other shape.
 """
 import z3
 
@@ -753,7 +759,255 @@ class C18Executor(Executor):
     def call(self, st, f, args, kwargs, node):
         if isinstance(f, VExt) and f.sort == "Transport":
             return transport_call(self, st, f, args, kwargs, node)
+        if isinstance(f, VFunc) and f.how == "classattr" and f.b == "__init__" and isinstance(f.a, str) and f.a not in self.module.classes \
+                and args and isinstance(args[0], VRef) and not kwargs:
+            import builtins
+            b = getattr(builtins, f.a.split(".")[-1], None)
+            if isinstance(b, type) and issubclass(b, BaseException):
+                return [(st, NONE)]      # `Exception.__init__(self, msg)`: stores `args`, touches no named attribute
         return super().call(st, f, args, kwargs, node)
+
+    # -- zero-argument super() inside an exception class (round 6) ---------------------
+    def b_super(self, st, args, kwargs, node):
+        """`super()` in a method of a class whose ancestors -- inside the module none with an __init__ / __new__ / __setattr__
+        of its own, outside it only built-in exception classes -- leave construction to BaseException: the proxy's __init__
+        stores its positional arguments in `args` and touches no named attribute.  Any other class: unmodelled call."""
+        import builtins
+        fnode = self.cur_fn_stack[-1] if self.cur_fn_stack else None
+        q = next((k for k, n_ in self.module.functions.items() if n_ is fnode), None)
+        if args or kwargs or q is None or "." not in q:
+            return self.havoc_call(st, "super", args, node)
+        todo, seen, first = [q.rsplit(".", 1)[0]], set(), True
+        while todo:
+            cname = todo.pop()
+            if cname in seen:
+                continue
+            seen.add(cname)
+            cd = self.module.classes.get(cname)
+            if cd is None:
+                b = getattr(builtins, cname, None)
+                if not (isinstance(b, type) and issubclass(b, BaseException)):
+                    return self.havoc_call(st, "super", args, node)
+                continue
+            if not first and any(isinstance(x, (_ast.FunctionDef, _ast.AsyncFunctionDef)) and x.name in ("__init__", "__new__", "__setattr__")
+                                 for x in cd.body):
+                return self.havoc_call(st, "super", args, node)
+            if cd.keywords:
+                return self.havoc_call(st, "super", args, node)
+            first = False
+            todo.extend(_ast.unparse(b) for b in cd.bases)
+        return [(st, VExt("ExceptionSuper"))]
+
+    # -- `f(**d)` with a dict whose keys are known (round 6) -------------------------
+    def e_Call(self, n, st):
+        if not any(k.arg is None for k in n.keywords) or self.is_logger_call(n):
+            return super().e_Call(n, st)
+        out = []
+        for (s, f) in self.ev(n.func, st):
+            for (s2, args) in self.ev_list(n.args, s):
+                for (s3, kwvals) in self.ev_list([k.value for k in n.keywords], s2):
+                    kwargs = {}
+                    for k, v in zip(n.keywords, kwvals):
+                        if k.arg is not None:
+                            items = {k.arg: v}
+                        else:
+                            o = s3.obj(v.ref) if isinstance(v, VRef) else None
+                            if o is None or o.kind != "dict" or o.data is None or not all(isinstance(x, str) for x in o.data):
+                                self.unsupported(n, "**kwargs call")
+                            items = o.data
+                        for name, val in items.items():
+                            if name in kwargs:
+                                self.unsupported(n, f"keyword argument {name} given twice")
+                            kwargs[name] = val
+                    out.extend(self.call(s3, f, args, kwargs, n))
+        return out
+
+    # -- context managers (round 6) ----------------------------------------------
+    def canonical_name(self, e):
+        """Dotted origin of a Name / Attribute chain through the module's imports (None when not an imported name)."""
+        parts = []
+        while isinstance(e, _ast.Attribute):
+            parts.append(e.attr)
+            e = e.value
+        if not isinstance(e, _ast.Name) or e.id not in self.module.imports:
+            return None
+        return ".".join([self.module.imports[e.id]] + parts[::-1])
+
+    def contextmanager_generator(self, call, st):
+        """`with helper(..)` where helper is a module-level / method generator decorated with @contextlib.contextmanager."""
+        if not isinstance(call, _ast.Call):
+            return None
+        f = call.func
+        if isinstance(f, _ast.Name) and st.lookup(f.id) is None and f.id in self.module.functions:
+            fnode, self_val = self.module.functions[f.id], None
+        elif isinstance(f, _ast.Attribute) and isinstance(f.value, _ast.Name) and f.value.id == "self" and st.lookup("self") is not None \
+                and self.cur_fn_stack:
+            owner = next((q for q, n in self.module.functions.items() if n is self.cur_fn_stack[-1]), None)
+            cls = owner.rsplit(".", 1)[0] if owner and "." in owner else None
+            fnode = self.module.functions.get(f"{cls}.{f.attr}") if cls else None
+            self_val = st.lookup("self")
+            if fnode is not None and any(_ast.unparse(d) == "staticmethod" for d in fnode.decorator_list):
+                self_val = None
+        else:
+            return None
+        if fnode is None or any(fnode is x for x in self.cur_fn_stack):
+            return None
+        if not any(self.canonical_name(d) == "contextlib.contextmanager" for d in fnode.decorator_list):
+            return None
+        return fnode, self_val
+
+    @staticmethod
+    def _single_yield(fnode):
+        """(yield statement, code-follows-the-yield?) of a context-manager generator with exactly one `yield` statement
+        outside loops / nested functions; None for any other shape."""
+        found = []
+
+        def walk(block, tail_clean, in_loop):
+            for k, stmt in enumerate(block):
+                clean = tail_clean and k == len(block) - 1
+                if isinstance(stmt, _ast.Expr) and isinstance(stmt.value, _ast.Yield):
+                    found.append((stmt, not clean, in_loop))
+                    continue
+                if isinstance(stmt, (_ast.FunctionDef, _ast.AsyncFunctionDef, _ast.ClassDef)):
+                    continue
+                if any(isinstance(x, (_ast.Yield, _ast.YieldFrom)) for sub in _ast.iter_child_nodes(stmt)
+                       if not isinstance(sub, _ast.stmt) and not isinstance(sub, _ast.ExceptHandler) for x in _ast.walk(sub)):
+                    found.append((None, True, True))       # a yield in expression position
+                if isinstance(stmt, _ast.Try):
+                    walk(stmt.body, clean and not stmt.orelse, in_loop)
+                    for h in stmt.handlers:
+                        walk(h.body, clean, in_loop)
+                    walk(stmt.orelse, clean, in_loop)
+                    walk(stmt.finalbody, False, in_loop)
+                elif isinstance(stmt, _ast.If):
+                    walk(stmt.body, clean, in_loop)
+                    walk(stmt.orelse, clean, in_loop)
+                elif isinstance(stmt, (_ast.With,)):
+                    walk(stmt.body, False, in_loop)
+                elif isinstance(stmt, (_ast.For, _ast.While)):
+                    walk(stmt.body, False, True)
+                    walk(stmt.orelse, False, True)
+                elif hasattr(stmt, "body") and isinstance(getattr(stmt, "body"), list):
+                    walk(stmt.body, False, True)
+        walk(fnode.body, True, False)
+        if len(found) != 1 or found[0][0] is None or found[0][2]:
+            return None
+        return found[0][0], found[0][1]
+
+    def s_With(self, s, st):
+        """Two context managers are executed as the code they stand for (anything else: the engine's rule).
+        * `with contextlib.suppress(E..): B`  ==  `try: B  except (E..): pass`;
+        * `with cm(args) [as v]: B`, cm a @contextlib.contextmanager generator of this module with a single `yield`
+          statement outside loops: the generator's body runs in its own frame and B runs, in the caller's frame, at the yield
+          (an exception of B is raised at the yield: generator.throw; what the generator does not catch or raises itself
+          propagates; handled and finished = suppressed).  A `return` / `break` / `continue` leaving B while code follows the
+          yield, a generator that finishes without reaching its yield: out of subset."""
+        if len(s.items) != 1:
+            if any(self._with_kind(it.context_expr, st) for it in s.items):
+                inner = _ast.With(items=s.items[1:], body=s.body, type_comment=None)
+                outer = _ast.With(items=s.items[:1], body=[_ast.copy_location(inner, s)], type_comment=None)
+                return self.s_With(_ast.copy_location(outer, s), st)
+            return super().s_With(s, st)
+        item = s.items[0]
+        kind = self._with_kind(item.context_expr, st)
+        if kind == "suppress":
+            if item.context_expr.keywords or any(isinstance(a, _ast.Starred) for a in item.context_expr.args):
+                self.unsupported(s, "suppress(..) with starred / keyword arguments")
+            if not item.context_expr.args:
+                return self.exec_block(s.body, st)
+            h = _ast.ExceptHandler(type=_ast.Tuple(elts=list(item.context_expr.args), ctx=_ast.Load()), name=None, body=[_ast.Pass()])
+            t = _ast.Try(body=s.body, handlers=[h], orelse=[], finalbody=[])
+            _ast.copy_location(t, s)
+            _ast.fix_missing_locations(t)
+            return self.s_Try(t, st)
+        if kind == "closing":
+            res = item.context_expr.args[0]
+            pre = [] if item.optional_vars is None else [_ast.Assign(targets=[item.optional_vars], value=res)]
+            fin = _ast.Expr(value=_ast.Call(func=_ast.Attribute(value=res, attr="close", ctx=_ast.Load()), args=[], keywords=[]))
+            t = _ast.Try(body=s.body, handlers=[], orelse=[], finalbody=[fin])
+            stmts = pre + [t]
+            for x in stmts:
+                _ast.fix_missing_locations(_ast.copy_location(x, s))
+            return self.exec_block(stmts, st)
+        if kind == "generator":
+            return self.with_generator(s, st, item)
+        return super().s_With(s, st)
+
+    def _with_kind(self, e, st):
+        if isinstance(e, _ast.Call) and self.canonical_name(e.func) == "contextlib.suppress":
+            return "suppress"
+        if isinstance(e, _ast.Call) and self.canonical_name(e.func) == "contextlib.closing" and len(e.args) == 1 and not e.keywords \
+                and isinstance(e.args[0], _ast.Name):
+            return "closing"       # `with closing(x) [as v]: B` == `[v = x]; try: B finally: x.close()` (x a plain name)
+        if self.contextmanager_generator(e, st) is not None:
+            return "generator"
+        return None
+
+    def with_generator(self, s, st, item):
+        from pyvc.state import Frame
+        call = item.context_expr
+        fnode, self_val = self.contextmanager_generator(call, st)
+        shape = self._single_yield(fnode)
+        if shape is None:
+            self.unsupported(s, f"context manager {fnode.name}: not a single `yield` statement outside loops")
+        ystmt, code_follows = shape
+        if any(k.arg is None for k in call.keywords) or any(isinstance(a, _ast.Starred) for a in call.args):
+            self.unsupported(s, "**kwargs call")
+        outs = []
+        key = f"cm-entered@{id(s)}"
+        for (s1, args) in self.ev_list(call.args, st):
+            for (s2, kwvals) in self.ev_list([k.value for k in call.keywords], s1):
+                env = self.bind_params(fnode, args, {k.arg: v for k, v in zip(call.keywords, kwvals)}, call, self_val=self_val)
+                s2.frames.append(Frame(env, None, fnode))
+                s2.ghost.pop(key, None)
+                self.cur_fn_stack.append(fnode)
+                self._cm_sites = getattr(self, "_cm_sites", [])
+                self._cm_sites.append((ystmt, s, item, key, code_follows))
+                try:
+                    res = self.exec_block(fnode.body, s2)
+                finally:
+                    self.cur_fn_stack.pop()
+                    self._cm_sites.pop()
+                for o in res:
+                    o.st.frames.pop()
+                    if o.kind == "raise":
+                        outs.append(o)
+                    elif o.kind == "cm-exit":
+                        outs.append(Outcome(o.val[0], o.st, o.val[1]))
+                    elif o.kind in ("fall", "return"):
+                        if not o.st.ghost.get(key):
+                            self.unsupported(s, f"context manager {fnode.name} can finish without reaching its yield")
+                        outs.append(Outcome("fall", o.st))
+                    else:
+                        self.unsupported(s, f"{o.kind} leaving a context-manager generator")
+        return outs
+
+    def cm_yield(self, ystmt, st):
+        """The single yield of a context-manager generator: the body of the `with` statement runs here, in the caller's frame."""
+        _y, w, item, key, code_follows = self._cm_sites[-1]
+        outs = []
+        vals = self.ev(ystmt.value.value, st) if ystmt.value.value is not None else [(st, NONE)]
+        for (s1, v) in vals:
+            gframe = s1.frames.pop()
+            gfn = self.cur_fn_stack.pop()
+            sites = self._cm_sites
+            self._cm_sites = sites[:-1]
+            try:
+                s1.ghost[key] = True
+                starts = self.assign(item.optional_vars, v, s1) if item.optional_vars is not None else [s1]
+                res = [o for s2 in starts for o in self.exec_block(w.body, s2)]
+            finally:
+                self.cur_fn_stack.append(gfn)
+                self._cm_sites = sites
+            for o in res:
+                o.st.frames.append(gframe.copy())
+                if o.kind in ("fall", "raise"):
+                    outs.append(o)
+                elif code_follows:
+                    self.unsupported(w, f"{o.kind} leaves the with-body while the context manager has code after its yield")
+                else:
+                    outs.append(Outcome("cm-exit", o.st, (o.kind, o.val)))
+        return outs
 
     def handler_classes(self, h, st):
         # urllib.error.X / json.JSONDecodeError and their short aliases are one class each
@@ -830,6 +1084,10 @@ class C18Executor(Executor):
         self.__dict__.setdefault("_iter_state", []).append(st)
         try:
             spec = self.loop_spec(s)
+            if (spec is None or spec.inv is None) and isinstance(it, VSeq):
+                summary = self.search_loop(s, st, it)
+                if summary is not None:
+                    return summary
             if spec is None or spec.inv is None:
                 # a symbolic loop without an invariant is cut with `True` (everything it assigns is forgotten): an
                 # over-approximation, so a VC that fails afterwards is `unknown`, never a counterexample by itself
@@ -846,6 +1104,103 @@ class C18Executor(Executor):
             self._iter_stack.pop()
             self._iter_state.pop()
 
+    def search_loop(self, s, st, it):
+        """A `for` over a symbolic sequence whose iterations change nothing unless they leave the loop (`for x in xs: if p(x):
+        return / break / raise`) needs no invariant: it is summarised exactly.  The body is run once at an arbitrary index i;
+        with stay(i) = the condition under which iteration i falls through (state untouched),
+          * leaving at i (return / raise / break) happens under  0 <= i < n  and  forall k < i. stay(k);
+          * the loop ends normally under  forall k < n. stay(k)  (then the `else` block runs).
+        Returns None (caller falls back to the havoc cut) when an iteration that stays has any effect, or when its condition
+        mentions a value created inside the body."""
+        view = self.seq_view(st, it)
+        if view is None or self._has_yield(s.body):
+            return None
+        n, elem = view
+        mark = int(fresh_name("search").rsplit("!", 1)[1])
+        i = z3.Int(fresh_name("i"))
+        probe = st.fork()
+        base_len = len(probe.pc)
+        probe.assume(z3.And(i >= 0, i < n))
+        targets = {x.id for x in _ast.walk(s.target) if isinstance(x, _ast.Name)}
+        n_obls = getattr(self, "_vc_count", 0)
+        starts = self.assign(s.target, elem(i), probe)
+        if len(starts) != 1:
+            return None
+        ref = starts[0]
+        snap_env = [dict(f.env) for f in ref.frames]
+        snap_heap, snap_ghost, snap_y, snap_pc = dict(ref.heap), dict(ref.ghost), len(ref.yielded), len(ref.pc)
+        outs = self.exec_block(s.body, ref.fork())
+        if getattr(self, "_vc_count", 0) != n_obls:
+            self.unsupported(s, "verification condition generated inside an invariant-less loop over a symbolic sequence")
+
+        def same(a, b):
+            if a is b:
+                return True
+            ta, tb = getattr(a, "t", None), getattr(b, "t", None)
+            return type(a) is type(b) and ta is not None and tb is not None and z3.is_expr(ta) and z3.is_expr(tb) and ta.eq(tb)
+
+        def untouched(o):
+            if len(o.st.frames) != len(snap_env) or o.st.yielded.__len__() != snap_y:
+                return False
+            for fr, env in zip(o.st.frames, snap_env):
+                if set(fr.env) - targets != set(env) - targets:
+                    return False
+                if any(not same(fr.env[k], env[k]) for k in env if k not in targets):
+                    return False
+            if set(o.st.heap) != set(snap_heap) or any(o.st.heap[r] is not snap_heap[r] for r in snap_heap):
+                return False
+            return set(o.st.ghost) == set(snap_ghost) and all(o.st.ghost[k] is snap_ghost[k] or o.st.ghost[k] == snap_ghost[k] for k in snap_ghost)
+
+        def local_consts(t, seen):
+            todo = [t]
+            while todo:
+                x = todo.pop()
+                if x.get_id() in seen:
+                    continue
+                seen.add(x.get_id())
+                if z3.is_quantifier(x):
+                    todo.append(x.body())
+                elif z3.is_app(x):
+                    if x.num_args() == 0 and x.decl().kind() == z3.Z3_OP_UNINTERPRETED and not x.eq(i):
+                        nm = x.decl().name()
+                        if "!" in nm and nm.rsplit("!", 1)[1].isdigit() and int(nm.rsplit("!", 1)[1]) > mark:
+                            return True
+                    todo.extend(x.children())
+            return False
+
+        stay, exits = [], []
+        for o in outs:
+            if o.kind in ("fall", "continue"):
+                try:
+                    ok = untouched(o)
+                except Exception:      # values without structural equality
+                    ok = False
+                delta = o.st.pc[snap_pc:]
+                if not ok or any(local_consts(d, set()) for d in delta):
+                    return None
+                stay.append(z3.And(delta) if delta else z3.BoolVal(True))
+            elif o.kind in ("return", "raise", "break"):
+                exits.append(o)
+            else:
+                return None
+        stay_i = z3.simplify(z3.Or(stay)) if stay else z3.BoolVal(False)
+        k = z3.Int(fresh_name("k"))
+        stay_k = z3.substitute(stay_i, (i, k))
+        res = []
+        for o in exits:
+            if not z3.is_true(stay_i):
+                o.st.assume(z3.ForAll([k], z3.Implies(z3.And(k >= 0, k < i), stay_k)))
+            res.append(Outcome("fall", o.st) if o.kind == "break" else o)
+        if not z3.is_false(stay_i):
+            done = st
+            if not z3.is_true(stay_i):
+                done.assume(z3.ForAll([k], z3.Implies(z3.And(k >= 0, k < n), stay_k)))
+            if s.orelse:
+                res.extend(self.exec_block(s.orelse, done))
+            else:
+                res.append(Outcome("fall", done))
+        return res
+
     def _exec_stmt(self, s, st):
         # a Python exception inside the engine / the pack's models on an unforeseen code shape is a gap of the model, not a
         # fact about the code: the function leaves the verifiable subset (obligations `unknown`, native replayer decides)
@@ -857,6 +1212,7 @@ class C18Executor(Executor):
             raise ops.Unsupported(f"{self.loc(s)} model does not cover this shape: {type(e).__name__}: {e} @ {where.name}:{where.lineno}")
 
     def add_vc(self, kind, label, pc, goal, note="", loc=""):
+        self._vc_count = getattr(self, "_vc_count", 0) + 1
         g = goal.t if isinstance(goal, VBool) else (z3.BoolVal(goal) if isinstance(goal, bool) else goal)
         pc = list(pc)
         super().add_vc(kind, label, pc + unfold_instances(pc + [g]), g, note, loc)
@@ -975,6 +1331,121 @@ class C18Executor(Executor):
                         self.unsupported(n, f"{o.kind} leaving a generator helper")
         return out
 
+    # -- `for x in helper(..): BODY` over an uncontracted generator of the module (round 6) ------------------------
+    def loop_over_helper(self, s, st):
+        """The loop is executed as the helper's body with every `yield v` replaced by `for x in (v,): BODY` and every
+        `yield from E` by `for x in E: BODY` (push form of the same iteration; the helper's locals are renamed apart, its
+        parameters are assigned from the call's arguments).  That is the code the loop runs when nothing leaves it early, so
+        the shapes where something could are out of subset: `break` in BODY, `return` in the helper, a yield inside try / with
+        (generator close would run handlers), yields in expression position, nested functions.  -> statements or None."""
+        h = self.generator_helper(st, s.iter) if isinstance(s.iter, _ast.Call) else None
+        if h is None:
+            return None
+        fnode, self_val = h
+        call = s.iter
+        cached = self.__dict__.setdefault("_helper_loops", {}).get(id(s))
+        if cached is not None:
+            return cached
+
+        def breaks(stmts):
+            for x in stmts:
+                if isinstance(x, _ast.Break):
+                    return True
+                if isinstance(x, (_ast.For, _ast.While, _ast.FunctionDef, _ast.AsyncFunctionDef, _ast.ClassDef)):
+                    if isinstance(x, (_ast.For, _ast.While)) and breaks(x.orelse):
+                        return True
+                    continue
+                for fld in ("body", "orelse", "finalbody"):
+                    if breaks(getattr(x, fld, []) or []):
+                        return True
+                if any(breaks(hd.body) for hd in getattr(x, "handlers", [])):
+                    return True
+            return False
+        if breaks(s.body) or any(isinstance(k, _ast.Starred) for k in call.args) or any(k.arg is None for k in call.keywords):
+            self.unsupported(s, "loop over a generator helper: break in the body / starred arguments")
+        for x in _ast.walk(fnode):
+            if x is not fnode and isinstance(x, (_ast.FunctionDef, _ast.AsyncFunctionDef, _ast.Lambda, _ast.ClassDef, _ast.Return, _ast.Global,
+                                                 _ast.Nonlocal, _ast.Await)):
+                self.unsupported(s, f"loop over generator helper {fnode.name}: {type(x).__name__} inside the helper")
+        a = fnode.args
+        if a.vararg or a.kwarg or a.posonlyargs:
+            self.unsupported(s, f"loop over generator helper {fnode.name}: variadic parameters")
+        params = [p.arg for p in a.args]
+        if self_val is not None:
+            params = params[1:]
+        pre = f"_g{s.lineno}_{s.col_offset}_"
+        given = dict(zip(params, call.args))
+        if len(call.args) > len(params):
+            self.unsupported(s, "too many positional args")
+        for k in call.keywords:
+            if k.arg in given or k.arg not in params + [p.arg for p in a.kwonlyargs]:
+                self.unsupported(s, f"unexpected keyword {k.arg}")
+            given[k.arg] = k.value
+        dflt = dict(zip([p.arg for p in a.args][len(a.args) - len(a.defaults):], a.defaults))
+        dflt.update({p.arg: d for p, d in zip(a.kwonlyargs, a.kw_defaults) if d is not None})
+        local = set(params) | {p.arg for p in a.kwonlyargs}
+        for x in _ast.walk(fnode):
+            if isinstance(x, _ast.Name) and isinstance(x.ctx, (_ast.Store, _ast.Del)):
+                local.add(x.id)
+            elif isinstance(x, _ast.ExceptHandler) and x.name:
+                self.unsupported(s, "named exception handler inside a generator helper")
+        keep_self = a.args[0].arg if self_val is not None and a.args else None
+        if keep_self is not None and keep_self != "self":
+            self.unsupported(s, "generator helper whose first parameter is not called self")
+        local.discard(keep_self)
+        binds = []
+        for pname in params + [p.arg for p in a.kwonlyargs]:
+            src = given.get(pname, dflt.get(pname))
+            if src is None or (pname not in given and not isinstance(src, _ast.Constant)):
+                self.unsupported(s, f"loop over generator helper {fnode.name}: argument {pname}")
+            binds.append(_ast.Assign(targets=[_ast.Name(id=pre + pname, ctx=_ast.Store())], value=src))
+        import copy
+
+        class Ren(_ast.NodeTransformer):
+            def visit_Name(self, node):
+                return _ast.copy_location(_ast.Name(id=pre + node.id, ctx=node.ctx), node) if node.id in local else node
+        outer = self
+
+        def rewrite(stmts, guarded):
+            out = []
+            for x in stmts:
+                if isinstance(x, _ast.Expr) and isinstance(x.value, (_ast.Yield, _ast.YieldFrom)):
+                    if guarded:
+                        outer.unsupported(s, "yield inside try / with of a generator helper")
+                    v = x.value.value
+                    if isinstance(x.value, _ast.Yield):
+                        v = _ast.Tuple(elts=[v if v is not None else _ast.Constant(value=None)], ctx=_ast.Load())
+                    if any(isinstance(y, (_ast.Yield, _ast.YieldFrom)) for y in _ast.walk(v)):
+                        outer.unsupported(s, "nested yield")
+                    out.append(_ast.copy_location(_ast.For(target=s.target, iter=v, body=s.body, orelse=[], type_comment=None), x))
+                    continue
+                for sub in _ast.iter_child_nodes(x):
+                    if not isinstance(sub, (_ast.stmt, _ast.ExceptHandler)) and any(isinstance(y, (_ast.Yield, _ast.YieldFrom)) for y in _ast.walk(sub)):
+                        outer.unsupported(s, "yield in expression position inside a generator helper")
+                g2 = guarded or isinstance(x, (_ast.Try, _ast.With))
+                for fld in ("body", "orelse", "finalbody"):
+                    if isinstance(getattr(x, fld, None), list):
+                        setattr(x, fld, rewrite(getattr(x, fld), g2))
+                for hd in getattr(x, "handlers", []):
+                    hd.body = rewrite(hd.body, True)
+                out.append(x)
+            return out
+        body = [Ren().visit(copy.deepcopy(x)) for x in fnode.body
+                if not (isinstance(x, _ast.Expr) and isinstance(x.value, _ast.Constant))]
+        stmts = binds + rewrite(body, False) + list(s.orelse)
+        for x in stmts:
+            _ast.fix_missing_locations(_ast.copy_location(x, s) if not hasattr(x, "lineno") else x)
+        self._helper_loops[id(s)] = stmts
+        self.__dict__.setdefault("_helper_keep", []).append(s)
+        return stmts
+
+    def s_For(self, s, st):
+        if self.inline_depth == 0:
+            stmts = self.loop_over_helper(s, st)
+            if stmts is not None:
+                return self.exec_block(stmts, st)
+        return super().s_For(s, st)
+
     def e_YieldFrom(self, n, st):
         if self.inline_depth == 0:
             h = self.generator_helper(st, n.value)
@@ -996,6 +1467,8 @@ class C18Executor(Executor):
 
     def s_Expr(self, s, st):
         v = s.value
+        if getattr(self, "_cm_sites", None) and s is self._cm_sites[-1][0]:
+            return self.cm_yield(s, st)
         if isinstance(v, _ast.Call) and isinstance(v.func, _ast.Attribute) and v.func.attr == "extend" and len(v.args) == 1 \
                 and not v.keywords and isinstance(v.func.value, _ast.Name) and self.single_symbolic_comp(v.args[0], st):
             app = _ast.Expr(value=_ast.Call(func=_ast.Attribute(value=v.func.value, attr="append", ctx=_ast.Load()),
@@ -1005,7 +1478,9 @@ class C18Executor(Executor):
         return super().s_Expr(s, st)
 
     def e_ListComp(self, n, st):
-        if self.inline_depth == 0 and self.single_symbolic_comp(n, st) and self.contract is not None \
+        over_helper = self.inline_depth == 0 and len(n.generators) == 1 and not n.generators[0].is_async \
+            and isinstance(n.generators[0].iter, _ast.Call) and self.generator_helper(st, n.generators[0].iter) is not None
+        if over_helper or self.inline_depth == 0 and self.single_symbolic_comp(n, st) and self.contract is not None \
                 and any(isinstance(k, str) for k in self.contract.loops) and isinstance(n.generators[0].target, ast_Name) \
                 and self.role_of_iter(n.generators[0].iter, st) in self.contract.loops:
             tmp = f"_comp{n.lineno}_{n.col_offset}"
@@ -2572,11 +3047,42 @@ def lemmas():
     ]
 
 
+# ================================================================== Part E ==
+# The engine represents `SharePointRequestError(msg, status_code=.., body=.., url=..)` in client.py by an exception value
+# whose attributes ARE the keyword arguments (pyvc construct).  That is a statement about the class's constructor in
+# exceptions.py; it is discharged here on the constructor's real body (round 6: a constructor that rewrites the URL it is
+# given -- say, to strip a query string -- makes every "carries status and URL" clause of Part B talk about another value).
+EXC_FILE = "sharepoint2text/sharepoint_io/exceptions.py"
+CARRIED = ("status_code", "url")          # the statement: "the request error carrying status and URL"
+
+
+def exc_field_kept(name):
+    def w(c):
+        o = c.st.obj(c.args["self"].ref)
+        if o.kind != "obj" or o.data is None or name not in o.data:
+            return z3.BoolVal(False)
+        return same_value(o.data[name], c.args[name])
+    return w
+
+
+def part_e(reg):
+    reg.method_models[("ExceptionSuper", "__init__")] = lambda ex, st, obj, args, kwargs, node: [(st, NONE)]
+    return [FnContract(
+        target=f"{EXC_FILE}::SharePointRequestError.__init__",
+        params=[("self", p_obj("SharePointRequestError", {})), ("message", p_str()), ("status_code", p_opt(p_int())),
+                ("body", p_opt(p_str())), ("url", p_str())],
+        ensures=[(f"the-error-carries-the-{f}-it-was-given", exc_field_kept(f)) for f in CARRIED],
+        raises=[], total=True, modifies=("self",),
+        note="the request error reports the status and the URL it was constructed with, unchanged (what the engine assumes of "
+             "`SharePointRequestError(..)` at every raise site of client.py)",
+    )]
+
+
 def contracts(reg):
     install_string_models(reg)
     install_transport_models(reg)
     install_listing_models(reg)
-    return part_a(reg) + part_b(reg) + part_c(reg)
+    return part_a(reg) + part_b(reg) + part_c(reg) + part_e(reg)
 
 
 # ================================================================== Part D ==
@@ -2826,7 +3332,9 @@ BOUNDED = [
     {"what": "native replay (replay/C18.py): random libraries of depth <= 3, <= 6 items per folder, page sizes 1..4, 10 fault kinds at "
              "every request index of 5+5 listings, 12 x 10 healthy filtered listings, 432 boundary (timestamp, bound) pairs",
      "role": "witness search and validation of the assumed models; since round 4 also the BOUNDED obligation `native-listing-suite` "
-             "(12 fault kinds incl. empty bodies, folder timestamps, percent-escape folder names), counted as bounded-ok, never as discharged"},
+             "(12 fault kinds incl. empty bodies, folder timestamps, percent-escape folder names; round 6: paging links with query "
+             "strings, read() failing after the response was handed out, 15 crafted path-pattern sets, request-error fields), "
+             "counted as bounded-ok, never as discharged"},
 ]
 
 # path pruning only: an undecided feasibility query keeps the path (sound); short budgets keep generation fast on
